@@ -1,32 +1,968 @@
-use swimos_model::{Attr, Item, Value};
-use swimos_recon::parser::parse_recognize;
-use swimos_recon::*;
-use std::hash::Hasher;
-fn h(s: &str) -> u64 { let mut x = std::collections::hash_map::DefaultHasher::new(); recon_hash(s, &mut x); x.finish() }
+//! C15 - Comparing and hashing Recon text agrees with comparing parsed values.
+//!
+//! Engine E4 (bounded exhaustive enumeration). A pool of model values (tree size <= 3, boundary
+//! atoms; thorough: size 4) is printed with the three Recon printers and with a styled printer
+//! enumerating the legal re-formattings (blank insertion at every token boundary, `{}`/`()` body
+//! forms, `@a` / `@a()` / `@a{}`, numeric spellings, `-0`, identifier / string / escaped forms),
+//! plus single-edit mutations of those texts and a hand-written pool of invalid texts.
+//!
+//! Every text is parsed with `parse_recognize::<Value>` (the reference); "valid" and "equal"
+//! are defined by it and by `Value`'s `PartialEq`. On every enumerated pair:
+//!   * both valid: `compare_recon_values(a,b) == (parse(a) == parse(b))`
+//!   * otherwise:  `compare_recon_values(a,b) == (a == b)`
+//!   * reflexive, symmetric, no panic
+//!   * equal => `recon_hash` equal (SipHash-1-3, zero keys)
+//!   * `ReconKey`'s `==`/`Hash` agree with the above, and the `MapOperationQueue` coalesces two
+//!     operations exactly when their keys are equal by the reference.
+
+mod gen;
+mod laws;
+mod lex;
+
+use laws::*;
+use serde_json::json;
+use std::collections::{BTreeMap, HashMap};
+use std::time::Instant;
+use swimos_model::{Item, Value};
+use swimos_recon::{print_recon, print_recon_compact, print_recon_pretty};
+use swimos_runtime::verif_hooks::ReconKey;
+use vcommon::{ncpu, par_map, Ctx, Leg};
+
+// ---------------------------------------------------------------------------------------------
+// text database
+// ---------------------------------------------------------------------------------------------
+
+#[derive(Clone, Copy, PartialEq, Eq, Debug)]
+enum Class {
+    Valid(u32),
+    Invalid,
+    Panics,
+}
+
+struct TextInfo {
+    s: String,
+    rank: u8,
+    class: Class,
+    hash: Option<u64>,
+    key: ReconKey,
+    shape: u32,
+    text_mask: u16,
+}
+
+struct Bucket {
+    value: Value,
+    flat: u32,
+    texts: Vec<u32>,
+    primary: bool,
+}
+
+#[derive(Default)]
+struct Interner {
+    list: Vec<(String, u8)>,
+    index: HashMap<String, u32>,
+}
+
+impl Interner {
+    fn add(&mut self, s: String, rank: u8) -> u32 {
+        if let Some(&i) = self.index.get(&s) {
+            if self.list[i as usize].1 > rank {
+                self.list[i as usize].1 = rank;
+            }
+            i
+        } else {
+            let i = self.list.len() as u32;
+            self.index.insert(s.clone(), i);
+            self.list.push((s, rank));
+            i
+        }
+    }
+}
+
+fn hex(b: &[u8]) -> String {
+    b.iter().map(|x| format!("{:02x}", x)).collect()
+}
+
+/// Canonical key: equal keys <=> `Value::eq` (verified on all pairs of primary buckets).
+fn ckey(v: &Value, out: &mut String) {
+    use num_bigint::BigInt;
+    match v {
+        Value::Extant => out.push('E'),
+        Value::BooleanValue(b) => out.push(if *b { 'T' } else { 'F' }),
+        Value::Int32Value(n) => out.push_str(&format!("i{};", n)),
+        Value::Int64Value(n) => out.push_str(&format!("i{};", n)),
+        Value::UInt32Value(n) => out.push_str(&format!("i{};", n)),
+        Value::UInt64Value(n) => out.push_str(&format!("i{};", n)),
+        Value::BigInt(n) => out.push_str(&format!("i{};", n)),
+        Value::BigUint(n) => out.push_str(&format!("i{};", BigInt::from(n.clone()))),
+        Value::Float64Value(x) => {
+            if x.is_nan() {
+                out.push_str("fnan;")
+            } else if *x == 0.0 {
+                out.push_str("f0;")
+            } else {
+                out.push_str(&format!("f{:016x};", x.to_bits()))
+            }
+        }
+        Value::Text(t) => out.push_str(&format!("s{}:{}", t.as_str().len(), t.as_str())),
+        Value::Data(b) => out.push_str(&format!("d{};", hex(b.as_ref()))),
+        Value::Record(attrs, items) => {
+            out.push_str("R[");
+            for a in attrs {
+                out.push_str(&format!("@{}:{}=", a.name.as_str().len(), a.name.as_str()));
+                ckey(&a.value, out);
+            }
+            out.push('|');
+            for it in items {
+                match it {
+                    Item::ValueItem(v) => {
+                        out.push('v');
+                        ckey(v, out);
+                    }
+                    Item::Slot(k, v) => {
+                        out.push('k');
+                        ckey(k, out);
+                        ckey(v, out);
+                    }
+                }
+            }
+            out.push(']');
+        }
+    }
+}
+
+/// Loose flattening used to decide which buckets are *neighbours*: structure dropped, numbers by
+/// numeric value, text/bool/attribute names by content, Extant dropped.
+fn flat(v: &Value, out: &mut Vec<String>) {
+    match v {
+        Value::Extant => {}
+        Value::BooleanValue(b) => out.push(b.to_string()),
+        Value::Int32Value(n) => out.push(format!("{}", *n as f64)),
+        Value::Int64Value(n) => out.push(format!("{}", *n as f64)),
+        Value::UInt32Value(n) => out.push(format!("{}", *n as f64)),
+        Value::UInt64Value(n) => out.push(format!("{}", *n as f64)),
+        Value::BigInt(n) => out.push(format!("{}", num_bigint_to_f64(&n.to_string()))),
+        Value::BigUint(n) => out.push(format!("{}", num_bigint_to_f64(&n.to_string()))),
+        Value::Float64Value(x) => out.push(if x.is_nan() { "NaN".into() } else if *x == 0.0 { "0".into() } else { format!("{}", x) }),
+        Value::Text(t) => out.push(t.as_str().to_string()),
+        Value::Data(b) => out.push(format!("%{}", gen::base64(b.as_ref()))),
+        Value::Record(attrs, items) => {
+            for a in attrs {
+                out.push(a.name.as_str().to_string());
+                flat(&a.value, out);
+            }
+            for it in items {
+                match it {
+                    Item::ValueItem(v) => flat(v, out),
+                    Item::Slot(k, v) => {
+                        flat(k, out);
+                        flat(v, out);
+                    }
+                }
+            }
+        }
+    }
+}
+
+fn num_bigint_to_f64(s: &str) -> f64 {
+    s.parse::<f64>().unwrap_or(f64::NAN)
+}
+
+struct Db {
+    texts: Vec<TextInfo>,
+    buckets: Vec<Bucket>,
+    shapes: Vec<String>,
+    n_flats: usize,
+}
+
+struct Classified {
+    value: Result<Option<Value>, ()>,
+    ckey: String,
+    flat: String,
+    hash: Option<u64>,
+    key: ReconKey,
+    shape: String,
+    mask: u16,
+}
+
+fn classify(s: &str) -> Classified {
+    let value = parse(s);
+    let (mut ck, mut fl) = (String::new(), String::new());
+    if let Ok(Some(v)) = &value {
+        ckey(v, &mut ck);
+        let mut f = vec![];
+        flat(v, &mut f);
+        fl = f.join("\u{1f}");
+    }
+    let hash = rhash(s);
+    let key = ReconKey::from(s);
+    let mut mask = 0;
+    if hash.is_none() {
+        mask |= L_HASH_PANIC;
+    } else if key_hash(&key) != hash {
+        mask |= L_KEY_HASH;
+    }
+    Classified { value, ckey: ck, flat: fl, hash, key, shape: lex::shape(s), mask }
+}
+
+fn build_db(list: Vec<(String, u8)>, n_primary_texts: usize) -> Db {
+    let cls: Vec<Classified> = par_map(&list, ncpu(), |_, (s, _)| classify(s));
+    let mut texts = Vec::with_capacity(list.len());
+    let mut buckets: Vec<Bucket> = vec![];
+    let mut bidx: HashMap<String, u32> = HashMap::new();
+    let mut shapes: Vec<String> = vec![];
+    let mut sidx: HashMap<String, u32> = HashMap::new();
+    let mut fidx: HashMap<String, u32> = HashMap::new();
+    for (i, ((s, rank), c)) in list.into_iter().zip(cls).enumerate() {
+        let shape = *sidx.entry(c.shape.clone()).or_insert_with(|| {
+            shapes.push(c.shape.clone());
+            (shapes.len() - 1) as u32
+        });
+        let class = match c.value {
+            Err(()) => Class::Panics,
+            Ok(None) => Class::Invalid,
+            Ok(Some(v)) => {
+                let nf = fidx.len() as u32;
+                let f = *fidx.entry(c.flat).or_insert(nf);
+                let b = match bidx.get(&c.ckey) {
+                    Some(&b) => {
+                        if buckets[b as usize].value != v || v != buckets[b as usize].value {
+                            vcommon::machinery_failure("canonical bucket key disagrees with Value::eq (one bucket holds != values)");
+                        }
+                        b
+                    }
+                    None => {
+                        buckets.push(Bucket { value: v, flat: f, texts: vec![], primary: false });
+                        bidx.insert(c.ckey, (buckets.len() - 1) as u32);
+                        (buckets.len() - 1) as u32
+                    }
+                };
+                buckets[b as usize].texts.push(i as u32);
+                if i < n_primary_texts {
+                    buckets[b as usize].primary = true;
+                }
+                Class::Valid(b)
+            }
+        };
+        texts.push(TextInfo { s, rank, class, hash: c.hash, key: c.key, shape, text_mask: c.mask });
+    }
+    // quick-tier texts first inside every bucket (so that "the first K texts" of a bucket in the
+    // thorough tier extend those of the quick tier)
+    for b in buckets.iter_mut() {
+        b.texts.sort_by_key(|&t| (texts[t as usize].rank, t));
+    }
+    Db { texts, buckets, shapes, n_flats: fidx.len() }
+}
+
+// ---------------------------------------------------------------------------------------------
+// accumulation of raw failures
+// ---------------------------------------------------------------------------------------------
+
+#[derive(Clone, Copy)]
+struct Group {
+    count: u64,
+    best: (u8, u32, u32, u32), // rank sum, length sum, i, j
+}
+
+#[derive(Default)]
+struct Acc {
+    evals: u64,
+    calls: u64,
+    nontrivial: u64,
+    groups: HashMap<(u8, u32, u32), Group>,
+}
+
+impl Acc {
+    fn fail(&mut self, db: &Db, mask: u16, i: u32, j: u32) {
+        let (ti, tj) = (&db.texts[i as usize], &db.texts[j as usize]);
+        let (sa, sb) = if ti.shape <= tj.shape { (ti.shape, tj.shape) } else { (tj.shape, ti.shape) };
+        let cand = (ti.rank + tj.rank, (ti.s.len() + tj.s.len()) as u32, i, j);
+        for bit in 0..N_LAWS {
+            if mask & (1 << bit) != 0 {
+                let g = self.groups.entry((bit as u8, sa, sb)).or_insert(Group { count: 0, best: cand });
+                g.count += 1;
+                if cand < g.best {
+                    g.best = cand;
+                }
+            }
+        }
+    }
+
+}
+
+fn expect(db: &Db, i: u32, j: u32) -> bool {
+    match (db.texts[i as usize].class, db.texts[j as usize].class) {
+        (Class::Valid(a), Class::Valid(b)) => a == b,
+        _ => i == j,
+    }
+}
+
+/// Check the unordered pair {i,j} (both directions).
+fn check_pair(db: &Db, i: u32, j: u32, acc: &mut Acc) -> u16 {
+    let (ti, tj) = (&db.texts[i as usize], &db.texts[j as usize]);
+    // a text on which the reference parser itself panics is checked against itself only (leg 0):
+    // paired with anything else it would only repeat that one failure
+    if i != j && (ti.class == Class::Panics || tj.class == Class::Panics) {
+        return 0;
+    }
+    let e = expect(db, i, j);
+    let (m, calls) = pair_laws(&ti.s, &tj.s, &ti.key, &tj.key, e, ti.hash, tj.hash, i == j);
+    acc.evals += if i == j { 1 } else { 2 };
+    acc.calls += calls;
+    if m != 0 {
+        acc.fail(db, m, i, j);
+    }
+    m
+}
+
+/// Run `f(unit, acc)` for every unit, striding the units over worker chunks.
+fn run_units<U: Sync, F: Fn(&U, &mut Acc) + Sync>(units: &[U], f: F) -> Acc {
+    let chunks = (ncpu() * 8).max(1);
+    let ids: Vec<usize> = (0..chunks).collect();
+    let accs = par_map(&ids, ncpu(), |_, &c| {
+        let mut acc = Acc::default();
+        let mut k = c;
+        while k < units.len() {
+            f(&units[k], &mut acc);
+            k += chunks;
+        }
+        acc
+    });
+    let mut total = Acc::default();
+    for a in accs {
+        merge_into(&mut total, a);
+    }
+    total
+}
+
+fn merge_into(total: &mut Acc, o: Acc) {
+    total.evals += o.evals;
+    total.calls += o.calls;
+    total.nontrivial += o.nontrivial;
+    for (k, g) in o.groups {
+        match total.groups.get_mut(&k) {
+            None => {
+                total.groups.insert(k, g);
+            }
+            Some(e) => {
+                e.count += g.count;
+                if g.best < e.best {
+                    e.best = g.best;
+                }
+            }
+        }
+    }
+}
+
+// ---------------------------------------------------------------------------------------------
+// generation
+// ---------------------------------------------------------------------------------------------
+
+fn invalid_pool() -> Vec<&'static str> {
+    vec![
+        // unbalanced
+        "{", "}", "(", ")", "{1", "{1,", "{1,2", "{a:", "{a:1", "@a(", "@a(1", "@a(1,", "@a{", "@a{1", "{{}", "{{1}", "@a(@b(", "@a(}", "{)", "{1)", "@a(1}", "@a({1)", "@a({1}",
+        // bad escapes / strings
+        "\"", "\"a", "\"\\q\"", "\"\\u12\"", "\"\\u12g4\"", "\"\\\"", "\"a\\", "\"\\ud800\"", "\"\\udc00\"", "@\"a", "@\"\\q\"", "{\"\\q\"}", "@a(\"\\q\")",
+        // empty / blank (valid: Extant) and comments
+        "", " ", "\n", "\t", " \n ", "#c", "1 #c", "#",
+        // trailing garbage (accepted by the reference parser after a complete value)
+        "1 }", "1 2", "{1}}", "{1} {2}", "a b", "a)", "@a(1))", "\"a\"\"b\"", "true false", "1,2", "{},", "%AA==x",
+        // lexical near misses
+        "@", "@@", "@ a", "@a (1)", "@1", "@(1)", "@a@", ":", ",", ";", ":1", "a:", "a:1", "1:", "{:", "{,", "-", "+", "+1", "-a", "1-", "0x", "0xg", "0b2", "1e", "1e+", "1.e1", ".5", "1..2", "--1", "1_0",
+        "%", "%A", "%AA", "%AAA", "%AA=", "%A===", "%====", "%AA==", "%AAAA", "%$", "$", "~", "^", "[", "]", "[1]", "<a>", "a=1", "'a'", "`a`", "\\", "\\n", "\u{0}", "\u{feff}1", "\u{a0}1",
+    ]
+}
+
+struct Generated {
+    interner: Interner,
+    n_values: usize,
+    n_primary: usize,
+    /// (base text, mutants of that base)
+    mutation_sets: Vec<(u32, Vec<u32>)>,
+    handwritten: Vec<u32>,
+}
+
+fn generate(thorough: bool) -> Generated {
+    let mut it = Interner::default();
+    let pool = gen::value_pool();
+    let styles = gen::styles();
+    let n_single = styles.iter().filter(|s| s.1).count();
+    let mut bases: Vec<(u32, u8)> = vec![];
+    let mut n_values = 0;
+    for (v, vq) in &pool {
+        if !thorough && !vq {
+            continue;
+        }
+        n_values += 1;
+        let vrank = if *vq { 0 } else { 1 };
+        for (k, (st, sq)) in styles.iter().enumerate() {
+            if !thorough && !sq {
+                continue;
+            }
+            let rank = if *sq { vrank } else { 1 };
+            let toks = gen::tokens(v, st);
+            let id = it.add(gen::join(&toks, "", None), rank);
+            if k == 0 {
+                bases.push((id, vrank));
+                for s in [format!("{}", print_recon_compact(v)), format!("{}", print_recon(v)), format!("{}", print_recon_pretty(v))] {
+                    let id = it.add(s, vrank);
+                    bases.push((id, vrank));
+                }
+            }
+            // blank insertion: default style, the two all-deviating styles; thorough: also the
+            // separator styles
+            let blanks = k == 0 || k == n_single - 1 || k == n_single - 2 || (thorough && *sq && st.sep != 0 && k < n_single - 2);
+            if blanks {
+                let brank = if k == 0 || k >= n_single - 2 { rank } else { 1 };
+                for i in 1..toks.len() {
+                    it.add(gen::join(&toks, " ", Some(i)), brank);
+                    it.add(gen::join(&toks, "\n", Some(i)), brank);
+                }
+                for b in [" ", "\n", "\t", "  ", " \n"] {
+                    it.add(gen::join(&toks, b, Some(usize::MAX)), brank);
+                }
+            }
+        }
+    }
+    let n_primary = it.list.len();
+
+    // single-edit mutations of the base texts
+    bases.sort();
+    bases.dedup_by_key(|b| b.0);
+    let quick_ins = ['{', ')', ',', '"'];
+    let all_ins = ['{', '}', '(', ')', '@', ':', ',', ';', '"', '\\', ' ', '\n', 'a', '0', '-', '.', '%', '#'];
+    let mut mutation_sets = vec![];
+    for (base, brank) in bases {
+        let s = it.list[base as usize].0.clone();
+        let idx: Vec<(usize, char)> = s.char_indices().collect();
+        let mut ms: Vec<u32> = vec![];
+        // deletions
+        for &(p, c) in &idx {
+            let mut m = String::with_capacity(s.len());
+            m.push_str(&s[..p]);
+            m.push_str(&s[p + c.len_utf8()..]);
+            ms.push(it.add(m, brank));
+        }
+        // adjacent transpositions
+        for w in idx.windows(2) {
+            let ((p, c), (_, d)) = (w[0], w[1]);
+            if c != d {
+                let mut m = String::with_capacity(s.len());
+                m.push_str(&s[..p]);
+                m.push(d);
+                m.push(c);
+                m.push_str(&s[p + c.len_utf8() + d.len_utf8()..]);
+                ms.push(it.add(m, brank));
+            }
+        }
+        // insertions
+        let mut cuts: Vec<usize> = idx.iter().map(|x| x.0).collect();
+        cuts.push(s.len());
+        for &p in &cuts {
+            for &c in all_ins.iter() {
+                let q = quick_ins.contains(&c);
+                if !thorough && !q {
+                    continue;
+                }
+                let mut m = String::with_capacity(s.len() + 1);
+                m.push_str(&s[..p]);
+                m.push(c);
+                m.push_str(&s[p..]);
+                ms.push(it.add(m, if q { brank } else { 1 }));
+            }
+        }
+        // replacements (thorough)
+        if thorough {
+            for &(p, c) in &idx {
+                for &r in all_ins.iter() {
+                    if r != c {
+                        let mut m = String::with_capacity(s.len());
+                        m.push_str(&s[..p]);
+                        m.push(r);
+                        m.push_str(&s[p + c.len_utf8()..]);
+                        ms.push(it.add(m, 1));
+                    }
+                }
+            }
+        }
+        ms.sort();
+        ms.dedup();
+        ms.retain(|&m| m != base);
+        mutation_sets.push((base, ms));
+    }
+    let handwritten: Vec<u32> = invalid_pool().into_iter().map(|s| it.add(s.to_string(), 0)).collect();
+    Generated { interner: it, n_values, n_primary, mutation_sets, handwritten }
+}
+
+// ---------------------------------------------------------------------------------------------
+// main
+// ---------------------------------------------------------------------------------------------
+
+fn sample(db: &Db, i: u32, j: u32) -> serde_json::Value {
+    json!({"a": db.texts[i as usize].s, "b": db.texts[j as usize].s, "expected_equal": expect(db, i, j)})
+}
+
 fn main() {
-    let vals = vec![
-        Value::Float64Value(f64::NAN), Value::Float64Value(f64::INFINITY), Value::Float64Value(-0.0), Value::Float64Value(1e300), Value::Float64Value(1.0),
-        Value::text("a b"), Value::text("a,b"), Value::text(""), Value::text("true"), Value::text("é"), Value::text("\u{1}\n\"\\"),
-        Value::Record(vec![Attr::of(("a", Value::Record(vec![], vec![Item::ValueItem(Value::Int32Value(1))])))], vec![]),
-        Value::Record(vec![Attr::of(("a", Value::Record(vec![], vec![Item::ValueItem(Value::Int32Value(1)), Item::ValueItem(Value::Int32Value(2))])))], vec![]),
-        Value::Record(vec![Attr::of(("a", Value::Record(vec![Attr::of("b")], vec![])))], vec![Item::ValueItem(Value::Int32Value(2))]),
-        Value::Record(vec![Attr::of(("a b", Value::Extant))], vec![Item::Slot(Value::Extant, Value::Extant), Item::ValueItem(Value::Extant)]),
-        Value::Record(vec![], vec![Item::ValueItem(Value::Record(vec![], vec![]))]),
-        Value::Data(swimos_model::Blob::from_vec(vec![1,2,3,4])),
-        Value::Data(swimos_model::Blob::from_vec(vec![])),
-    ];
-    for v in &vals {
-        let a = format!("{}", print_recon(v)); let b = format!("{}", print_recon_compact(v)); let c = format!("{}", print_recon_pretty(v));
-        println!("{:?}\n  std={:?} compact={:?} pretty={:?}", v, a, b, c);
-        println!("  parse std: {:?}", parse_recognize::<Value>(a.as_str(), false));
+    std::panic::set_hook(Box::new(|_| {}));
+    let ctx = Ctx::from_env("C15");
+    if ctx.replay_request().is_some() {
+        // `finish` consumes the context; rebuild it inside
+        let r = ctx.replay_request().unwrap().clone();
+        let d = &r["detail"];
+        let sig = r["signature"].as_str().unwrap_or("").to_string();
+        let law_s = d["law"].as_str().unwrap_or("").to_string();
+        let a = d["a"].as_str().unwrap_or("").to_string();
+        let b = d["b"].as_str().unwrap_or("").to_string();
+        let bit = (0..N_LAWS).find(|&k| law_name(k) == law_s).unwrap_or_else(|| vcommon::machinery_failure("replay: unknown law"));
+        let law = 1u16 << bit;
+        let (m, q) = if law & (L_Q_SPLIT | L_Q_MERGE | L_Q_PANIC) != 0 { string_queue_laws(&a, &b) } else { (string_laws(&a, &b), vec![]) };
+        eprintln!(
+            "replay: law={} a={:?} b={:?}\n  parse(a)={:?}\n  parse(b)={:?}\n  compare(a,b)={:?} compare(b,a)={:?} recon_hash(a)={:?} recon_hash(b)={:?} queue={:?}\n  still failing: {}",
+            law_s,
+            a,
+            b,
+            parse(&a),
+            parse(&b),
+            cmp(&a, &b),
+            cmp(&b, &a),
+            rhash(&a),
+            rhash(&b),
+            q,
+            m & law != 0
+        );
+        if m & law != 0 {
+            ctx.violation("replay", &sig, json!({"law": law_s, "a": a, "b": b, "explanation": law_explanation(bit), "values": [a, b]}));
+        }
+        ctx.finish("model_checking", "replay");
     }
-    let pairs = [("0.0","-0.0"),("@a(\"x,y\")","@a(\"x\\u002cy\")"),("1 garbage","1"),("@a(1)","@a({1})"),("@a(1,2)","@a({1,2})"),("@a({1},{2})","@a(1,2)"),
-      ("{1,}","{1}"),("@a()","@a"),("@a{}","@a"),("@a()","@a{}"), ("","{}"), ("NaN","nan"), ("1","01"),("1","0x1"),("-0","0"),("1.","1.0"),("{","{"),("{","("),("\"\\q\"","\"\\q\""),
-      ("@a(@b)","@a({@b})"),("@a(@b,1)","@a(@b{1})"),("@a(@b 1)","@a(@b{1})"), ("{a:1}","{a:{1}}"), ("{{1}:2}","{1:2}"), ("@a({})","@a()"), ("@a({})","@a"),("{{}}","{}"),("{,}","{}"),("{:}","{}")];
-    for (a,b) in pairs {
-        let pa = parse_recognize::<Value>(a, false); let pb = parse_recognize::<Value>(b, false);
-        let exp = match (&pa,&pb) { (Ok(x),Ok(y)) => x==y, _ => a==b };
-        let c = compare_recon_values(a,b);
-        println!("{:?} vs {:?}: cmp={} expect={} hash_eq={} {}  pa={:?} pb={:?}", a, b, c, exp, h(a)==h(b), if c!=exp {"MISMATCH"} else if exp && h(a)!=h(b) {"HASHDIFF"} else {""}, pa.ok(), pb.ok());
+    let thorough = !ctx.quick();
+
+    // ---- generation + classification
+    let t0 = Instant::now();
+    let g = generate(thorough);
+    let Generated { interner, n_values, n_primary, mutation_sets, handwritten } = g;
+    let n_texts = interner.list.len();
+    let db = build_db(interner.list, n_primary);
+    let n_valid = db.texts.iter().filter(|t| matches!(t.class, Class::Valid(_))).count();
+    let n_panics = db.texts.iter().filter(|t| t.class == Class::Panics).count();
+    let n_invalid = n_texts - n_valid - n_panics;
+    let primary: Vec<u32> = (0..db.buckets.len() as u32).filter(|&b| db.buckets[b as usize].primary).collect();
+    eprintln!(
+        "[C15] values={} texts={} (variants {}, valid {}, invalid {}, parser panics {}) buckets={} (primary {}) shapes={} flat classes={} gen+classify {:.1}s",
+        n_values,
+        n_texts,
+        n_primary,
+        n_valid,
+        n_invalid,
+        n_panics,
+        db.buckets.len(),
+        primary.len(),
+        db.shapes.len(),
+        db.n_flats,
+        t0.elapsed().as_secs_f64()
+    );
+
+    let mut leg_groups: Vec<(String, HashMap<(u8, u32, u32), Group>)> = vec![];
+
+    // ---- leg 0: every text against itself (reflexivity, per-text hash laws)
+    {
+        let t0 = Instant::now();
+        let ids: Vec<u32> = (0..n_texts as u32).collect();
+        let mut acc = run_units(&ids, |&i, acc| {
+            check_pair(&db, i, i, acc);
+            let tm = db.texts[i as usize].text_mask;
+            if tm != 0 {
+                acc.fail(&db, tm, i, i);
+            }
+        });
+        acc.calls += 3 * n_texts as u64; // parse, recon_hash, ReconKey hash at classification
+        let nontriv = db.buckets.iter().filter(|b| b.texts.len() >= 2).map(|b| b.texts.len() as u64).sum();
+        ctx.add_leg(Leg {
+            name: "texts_reflexive".into(),
+            engine: "E4-enum".into(),
+            states: n_texts as u64,
+            transitions: acc.calls,
+            evaluations: acc.evals,
+            distinct_nontrivial: nontriv,
+            rule: "every generated text classified by the reference parser and compared with itself; non-trivial = valid texts sharing their parsed value with at least one other distinct text".into(),
+            samples: vec![json!(db.texts[0].s), json!(db.texts[n_primary / 2].s), json!(db.texts[n_texts - 1].s)],
+            exhaustive: true,
+            bounds: json!({"model_values": n_values, "texts": n_texts, "valid": n_valid, "invalid": n_invalid, "reference_parser_panics": n_panics, "buckets": db.buckets.len(), "primary_buckets": primary.len()}),
+            wall_s: t0.elapsed().as_secs_f64(),
+        });
+        leg_groups.push(("texts_reflexive".into(), acc.groups));
     }
+
+    // ---- leg 1: all pairs inside every bucket
+    {
+        let t0 = Instant::now();
+        let mut units: Vec<(u32, u32)> = vec![];
+        for (b, bk) in db.buckets.iter().enumerate() {
+            for r in 0..bk.texts.len() {
+                units.push((b as u32, r as u32));
+            }
+        }
+        let acc = run_units(&units, |&(b, r), acc| {
+            let ts = &db.buckets[b as usize].texts;
+            let i = ts[r as usize];
+            for &j in &ts[r as usize + 1..] {
+                check_pair(&db, i, j, acc);
+                acc.nontrivial += 1;
+            }
+        });
+        let big = db.buckets.iter().map(|b| b.texts.len()).max().unwrap_or(0);
+        let sb = db.buckets.iter().position(|b| b.primary && b.texts.len() >= 4).unwrap_or(0);
+        let st = &db.buckets[sb].texts;
+        ctx.add_leg(Leg {
+            name: "within_bucket".into(),
+            engine: "E4-enum".into(),
+            states: n_valid as u64,
+            transitions: acc.calls,
+            evaluations: acc.evals,
+            distinct_nontrivial: acc.nontrivial,
+            rule: "all ordered pairs of distinct texts that parse to equal values (every bucket, all its texts); non-trivial = unordered pairs of distinct strings with equal values".into(),
+            samples: vec![sample(&db, st[0], st[st.len() - 1]), sample(&db, st[1.min(st.len() - 1)], st[st.len() / 2])],
+            exhaustive: true,
+            bounds: json!({"buckets": db.buckets.len(), "largest_bucket": big}),
+            wall_s: t0.elapsed().as_secs_f64(),
+        });
+        leg_groups.push(("within_bucket".into(), acc.groups));
+    }
+
+    // ---- leg 2: neighbouring buckets (same loose flattening), K texts per bucket
+    let k_nb = ctx.tier.pick(8usize, 16usize);
+    let mut by_flat: BTreeMap<u32, Vec<u32>> = BTreeMap::new();
+    for &b in &primary {
+        by_flat.entry(db.buckets[b as usize].flat).or_default().push(b);
+    }
+    let classes: Vec<Vec<u32>> = by_flat.into_values().filter(|v| v.len() >= 2).collect();
+    {
+        let t0 = Instant::now();
+        // unit = (class, index of bucket in class, text row)
+        let mut units: Vec<(u32, u32, u32)> = vec![];
+        for (c, bs) in classes.iter().enumerate() {
+            for (x, &b) in bs.iter().enumerate() {
+                for r in 0..db.buckets[b as usize].texts.len().min(k_nb) {
+                    units.push((c as u32, x as u32, r as u32));
+                }
+            }
+        }
+        let acc = run_units(&units, |&(c, x, r), acc| {
+            let bs = &classes[c as usize];
+            let i = db.buckets[bs[x as usize] as usize].texts[r as usize];
+            for &b2 in &bs[x as usize + 1..] {
+                for &j in db.buckets[b2 as usize].texts.iter().take(k_nb) {
+                    check_pair(&db, i, j, acc);
+                    acc.nontrivial += 1;
+                }
+            }
+        });
+        let big = classes.iter().map(|c| c.len()).max().unwrap_or(0);
+        let mut samples = vec![];
+        for c in classes.iter().filter(|c| c.len() >= 3).take(2) {
+            samples.push(sample(&db, db.buckets[c[0] as usize].texts[0], db.buckets[c[c.len() - 1] as usize].texts[0]));
+        }
+        ctx.add_leg(Leg {
+            name: "neighbour_buckets".into(),
+            engine: "E4-enum".into(),
+            states: classes.iter().map(|c| c.len() as u64).sum(),
+            transitions: acc.calls,
+            evaluations: acc.evals,
+            distinct_nontrivial: acc.nontrivial,
+            rule: "all ordered pairs of texts from two different buckets with the same loose flattening (same atoms in the same order; structure, numeric kind, quoting and Extant ignored), first K texts per bucket; every pair is a near miss".into(),
+            samples,
+            exhaustive: true,
+            bounds: json!({"classes_with_2+_buckets": classes.len(), "largest_class": big, "texts_per_bucket_K": k_nb}),
+            wall_s: t0.elapsed().as_secs_f64(),
+        });
+        leg_groups.push(("neighbour_buckets".into(), acc.groups));
+    }
+
+    // ---- leg 3: every pair of primary buckets, one representative each; also validates the
+    // canonical bucket key against Value::eq
+    {
+        let t0 = Instant::now();
+        let units: Vec<u32> = (0..primary.len() as u32).collect();
+        let bad_key = std::sync::atomic::AtomicU64::new(0);
+        let acc = run_units(&units, |&x, acc| {
+            let bx = &db.buckets[primary[x as usize] as usize];
+            for &b2 in &primary[x as usize + 1..] {
+                let by = &db.buckets[b2 as usize];
+                if bx.value == by.value || by.value == bx.value {
+                    bad_key.fetch_add(1, std::sync::atomic::Ordering::Relaxed);
+                }
+                let (i, j) = (bx.texts[0], by.texts[0]);
+                check_pair(&db, i, j, acc);
+                if db.texts[i as usize].shape == db.texts[j as usize].shape {
+                    acc.nontrivial += 1;
+                }
+            }
+        });
+        if bad_key.load(std::sync::atomic::Ordering::Relaxed) != 0 {
+            vcommon::machinery_failure("canonical bucket key disagrees with Value::eq (two buckets hold == values)");
+        }
+        ctx.add_leg(Leg {
+            name: "all_bucket_pairs".into(),
+            engine: "E4-enum".into(),
+            states: primary.len() as u64,
+            transitions: acc.calls,
+            evaluations: acc.evals,
+            distinct_nontrivial: acc.nontrivial,
+            rule: "all ordered pairs of primary buckets (those holding a printed pool value), first text of each; non-trivial = pairs whose texts have the same token shape (same structure, different atoms)".into(),
+            samples: vec![sample(&db, db.buckets[primary[3] as usize].texts[0], db.buckets[primary[primary.len() - 1] as usize].texts[0])],
+            exhaustive: true,
+            bounds: json!({"primary_buckets": primary.len()}),
+            wall_s: t0.elapsed().as_secs_f64(),
+        });
+        leg_groups.push(("all_bucket_pairs".into(), acc.groups));
+    }
+
+    // ---- leg 4: single-edit mutations: base x mutant, mutant x sibling mutant
+    {
+        let t0 = Instant::now();
+        let n_mut: usize = mutation_sets.iter().map(|m| m.1.len()).sum();
+        let sib_cap = ctx.tier.pick(48usize, 96usize);
+        let acc = run_units(&mutation_sets, |(base, ms), acc| {
+            for &m in ms {
+                let (i, j) = if *base < m { (*base, m) } else { (m, *base) };
+                check_pair(&db, i, j, acc);
+                acc.nontrivial += 1;
+            }
+            let sib: &[u32] = &ms[..ms.len().min(sib_cap)];
+            for (x, &i) in sib.iter().enumerate() {
+                for &j in &sib[x + 1..] {
+                    check_pair(&db, i, j, acc);
+                }
+            }
+        });
+        let (b0, m0) = (&mutation_sets[mutation_sets.len() / 2].0, &mutation_sets[mutation_sets.len() / 2].1);
+        ctx.add_leg(Leg {
+            name: "mutations".into(),
+            engine: "E4-enum".into(),
+            states: n_mut as u64,
+            transitions: acc.calls,
+            evaluations: acc.evals,
+            distinct_nontrivial: acc.nontrivial,
+            rule: "every base text (styled compact print and the three printers of each pool value) against each of its single-edit mutants (delete, transpose, insert; thorough: replace), and the first N sibling mutants of a base against each other; non-trivial = (base, mutant) pairs".into(),
+            samples: vec![sample(&db, *b0, m0[0]), sample(&db, *b0, m0[m0.len() - 1])],
+            exhaustive: true,
+            bounds: json!({"bases": mutation_sets.len(), "mutants": n_mut, "sibling_cap_N": sib_cap}),
+            wall_s: t0.elapsed().as_secs_f64(),
+        });
+        leg_groups.push(("mutations".into(), acc.groups));
+    }
+
+    // ---- leg 5: invalid texts
+    {
+        let t0 = Instant::now();
+        let inv_cap = ctx.tier.pick(1500usize, 5000usize);
+        let invalid_all: Vec<u32> = (0..n_texts as u32).filter(|&i| !matches!(db.texts[i as usize].class, Class::Valid(_))).collect();
+        let mut inv_pool: Vec<u32> = handwritten.clone();
+        let mut sorted_inv = invalid_all.clone();
+        sorted_inv.sort_by_key(|&i| (db.texts[i as usize].rank, db.texts[i as usize].s.len(), i));
+        for &i in sorted_inv.iter() {
+            if inv_pool.len() >= inv_cap {
+                break;
+            }
+            if !handwritten.contains(&i) {
+                inv_pool.push(i);
+            }
+        }
+        let reps: Vec<u32> = primary.iter().map(|&b| db.buckets[b as usize].texts[0]).collect();
+        // units: (kind, index)
+        let mut units: Vec<(u8, u32)> = vec![];
+        for x in 0..inv_pool.len() {
+            units.push((0, x as u32));
+        }
+        for x in 0..handwritten.len() {
+            units.push((1, x as u32));
+        }
+        let acc = run_units(&units, |&(kind, x), acc| {
+            if kind == 0 {
+                let i = inv_pool[x as usize];
+                for &j in &inv_pool[x as usize + 1..] {
+                    if i != j {
+                        check_pair(&db, i.min(j), i.max(j), acc);
+                        acc.nontrivial += 1;
+                    }
+                }
+            } else {
+                let i = handwritten[x as usize];
+                for &j in reps.iter().chain(invalid_all.iter()) {
+                    if i != j {
+                        check_pair(&db, i.min(j), i.max(j), acc);
+                    }
+                }
+            }
+        });
+        ctx.add_leg(Leg {
+            name: "invalid_texts".into(),
+            engine: "E4-enum".into(),
+            states: invalid_all.len() as u64 + handwritten.len() as u64,
+            transitions: acc.calls,
+            evaluations: acc.evals,
+            distinct_nontrivial: acc.nontrivial,
+            rule: "all ordered pairs of the invalid pool (hand-written unbalanced / bad-escape / blank / trailing-garbage / lexical near-miss texts plus the shortest invalid mutants); every hand-written text against every bucket representative and every invalid text; non-trivial = pairs inside the invalid pool".into(),
+            samples: vec![sample(&db, inv_pool[0], inv_pool[1]), sample(&db, handwritten[27], reps[5]), sample(&db, inv_pool[inv_pool.len() - 1], inv_pool[inv_pool.len() - 2])],
+            exhaustive: true,
+            bounds: json!({"handwritten": handwritten.len(), "invalid_pool": inv_pool.len(), "all_invalid_texts": invalid_all.len(), "bucket_representatives": reps.len()}),
+            wall_s: t0.elapsed().as_secs_f64(),
+        });
+        leg_groups.push(("invalid_texts".into(), acc.groups));
+    }
+
+    // ---- leg 6: the backpressure queue keyed by ReconKey
+    {
+        let t0 = Instant::now();
+        let kq = ctx.tier.pick(4usize, 8usize);
+        #[derive(Clone, Copy)]
+        enum U {
+            Within(u32, u32),
+            Neigh(u32, u32, u32),
+            Hand(u32),
+        }
+        let mut units: Vec<U> = vec![];
+        for &b in &primary {
+            for r in 0..db.buckets[b as usize].texts.len().min(kq) {
+                units.push(U::Within(b, r as u32));
+            }
+        }
+        for (c, bs) in classes.iter().enumerate() {
+            for (x, &b) in bs.iter().enumerate() {
+                for r in 0..db.buckets[b as usize].texts.len().min(kq) {
+                    units.push(U::Neigh(c as u32, x as u32, r as u32));
+                }
+            }
+        }
+        for x in 0..handwritten.len() {
+            units.push(U::Hand(x as u32));
+        }
+        let queue_pair = |i: u32, j: u32, acc: &mut Acc| {
+            let e = expect(&db, i, j);
+            if db.texts[i as usize].class == Class::Panics || db.texts[j as usize].class == Class::Panics {
+                return;
+            }
+            for (x, y) in [(i, j), (j, i)] {
+                let (m, _, calls) = queue_laws(&db.texts[x as usize].s, &db.texts[y as usize].s, e);
+                acc.evals += 1;
+                acc.calls += calls;
+                if m != 0 {
+                    acc.fail(&db, m, x, y);
+                }
+            }
+            if e {
+                acc.nontrivial += 1;
+            }
+        };
+        let acc = run_units(&units, |u, acc| match *u {
+            U::Within(b, r) => {
+                let ts = &db.buckets[b as usize].texts;
+                for &j in ts.iter().take(kq).skip(r as usize + 1) {
+                    queue_pair(ts[r as usize], j, acc);
+                }
+            }
+            U::Neigh(c, x, r) => {
+                let bs = &classes[c as usize];
+                let i = db.buckets[bs[x as usize] as usize].texts[r as usize];
+                for &b2 in &bs[x as usize + 1..] {
+                    for &j in db.buckets[b2 as usize].texts.iter().take(kq) {
+                        queue_pair(i, j, acc);
+                    }
+                }
+            }
+            U::Hand(x) => {
+                let i = handwritten[x as usize];
+                for &j in &handwritten[x as usize + 1..] {
+                    if i != j {
+                        queue_pair(i, j, acc);
+                    }
+                }
+            }
+        });
+        ctx.add_leg(Leg {
+            name: "backpressure_queue".into(),
+            engine: "E4-enum".into(),
+            states: units.len() as u64,
+            transitions: acc.calls,
+            evaluations: acc.evals,
+            distinct_nontrivial: acc.nontrivial,
+            rule: "MapOperationQueue (HashMap keyed by ReconKey, SipHash zero keys): update(a);update(b) and update(a);remove(b), drained; pairs = first K texts of each primary bucket pairwise, first K texts across neighbouring buckets, all pairs of hand-written texts; non-trivial = pairs of distinct texts with equal keys (must coalesce)".into(),
+            samples: vec![json!({"ops": ["update(\"@a(1,2)\",1)", "update(\"@a({1,2})\",2)"], "expected": "one entry, value 2"})],
+            exhaustive: true,
+            bounds: json!({"texts_per_bucket_K": kq}),
+            wall_s: t0.elapsed().as_secs_f64(),
+        });
+        leg_groups.push(("backpressure_queue".into(), acc.groups));
+    }
+
+    // ---- reduce every failure group's best example to a canonical minimal pair
+    let t0 = Instant::now();
+    let mut todo: Vec<(usize, u8, u32, u32, u64, u32, u32)> = vec![]; // leg, law bit, i, j, count, shape a, shape b
+    let mut seen: HashMap<(u8, u32, u32), ()> = HashMap::new();
+    for (l, (_, groups)) in leg_groups.iter().enumerate() {
+        let mut gs: Vec<(&(u8, u32, u32), &Group)> = groups.iter().collect();
+        gs.sort_by_key(|(k, g)| (k.0, g.best, k.1, k.2));
+        for (k, g) in gs {
+            if seen.insert((k.0, g.best.2, g.best.3), ()).is_none() {
+                todo.push((l, k.0, g.best.2, g.best.3, g.count, k.1, k.2));
+            }
+        }
+    }
+    let raw_groups = todo.len();
+    let raw_failures: u64 = todo.iter().map(|t| t.4).sum();
+    let reduce_cap = ctx.tier.pick(60000usize, 200000usize);
+    // smallest examples first, so that a cap (if ever hit) drops the largest
+    todo.sort_by_key(|t| (t.1, db.texts[t.2 as usize].rank + db.texts[t.3 as usize].rank, db.texts[t.2 as usize].s.len() + db.texts[t.3 as usize].s.len(), t.2, t.3));
+    let memo: Memo = Default::default();
+    let reduced: Vec<(String, String, u64)> = par_map(&todo, ncpu(), |n, t| {
+        let (a, b) = (&db.texts[t.2 as usize].s, &db.texts[t.3 as usize].s);
+        if n < reduce_cap {
+            let (ra, rb, ev) = reduce(1u16 << t.1, a, b, &memo);
+            let (ra, rb) = orient(1u16 << t.1, ra, rb);
+            (ra, rb, ev)
+        } else {
+            (a.clone(), b.clone(), 0)
+        }
+    });
+    for (n, (t, (a, b, _))) in todo.iter().zip(reduced.iter()).enumerate() {
+        let bit = t.1 as usize;
+        let consequence = bit >= 8 && bit <= 9 && string_laws(a, b) != 0;
+        let sig = if n >= reduce_cap {
+            format!("law={} unreduced shapes={:?}|{:?}", law_name(bit), db.shapes[t.5 as usize], db.shapes[t.6 as usize])
+        } else if consequence {
+            format!("law={} (consequence of a compare/hash law violation on the same pair)", law_name(bit))
+        } else {
+            format!("law={} a={:?} b={:?}", law_name(bit), a, b)
+        };
+        let (oa, ob) = (&db.texts[t.2 as usize].s, &db.texts[t.3 as usize].s);
+        ctx.violation(
+            &leg_groups[t.0].0,
+            &sig,
+            json!({
+                "law": law_name(bit), "a": a, "b": b, "values": [a, b],
+                "explanation": law_explanation(bit),
+                "parsed": [format!("{:?}", parse(a)), format!("{:?}", parse(b))],
+                "compare": [format!("{:?}", cmp(a, b)), format!("{:?}", cmp(b, a))],
+                "recon_hash": [format!("{:?}", rhash(a)), format!("{:?}", rhash(b))],
+                "found_as": [oa, ob],
+                "pairs_in_group": t.4,
+            }),
+        );
+    }
+    eprintln!(
+        "[C15] raw failing pairs={} groups={} reduced to {} signatures in {:.1}s ({} reducer evaluations)",
+        raw_failures,
+        raw_groups,
+        ctx.violation_count(),
+        t0.elapsed().as_secs_f64(),
+        reduced.iter().map(|r| r.2).sum::<u64>()
+    );
+
+    ctx.assume("validity and equality of texts are defined by parse_recognize::<Value>(text, false) and Value's PartialEq (so text after a complete top-level value is ignored, as the reference parser ignores it)");
+    ctx.assume("SipHash-1-3 with zero keys (std DefaultHasher::new) stands for every Hasher");
+    ctx.assume("value pool: tree size <= 3 (thorough: 4) over boundary atoms; other atoms and deeper nesting are not enumerated");
+    ctx.finish(
+        "model_checking",
+        "bounded-exhaustive enumeration of pairs of Recon texts (printer outputs, legal re-formattings, single-edit mutants, invalid texts) against the reference parser, on the real compare_recon_values / recon_hash / ReconKey / MapOperationQueue",
+    );
 }
